@@ -225,7 +225,7 @@ def sequential_histories(rep, work, hs, tier, rng):
     ci = w.gf._filter_function.cache_info()
     nf = 1500 if tier == 'thorough' else 1100
     filters = {}
-    for i in range(1, nf + 1):
+    for i in range(1, max(nf, 2 * cap + 200) + 1):
         filters[i] = ('tq%d' % i) if i % 7 else ('tQ%d' % (i - 1))     # case twins of a neighbour
     grid, rows = w.make_grid(filters)
     hist = {
@@ -234,6 +234,9 @@ def sequential_histories(rep, work, hs, tier, rng):
         'cycle_cap': [(i % cap) + 1 for i in range(nf)],
         'cycle_cap_plus_1': [(i % (cap + 1)) + 1 for i in range(nf)],
         'random_repeat': [rng.randint(1, cap + 100) for _ in range(nf)],
+        # one filter is kept cached (touched every 40 calls) while more than 2 * capacity other
+        # filters are compiled: generated names must stay distinct for as long as a wrapper lives
+        'hot_among_distinct': [1 if i % 40 == 0 else 2 + i - i // 40 for i in range(2 * cap + 150)],
     }
     if tier == 'quick':
         for k in ('cycle_cap_minus_1',):
